@@ -203,7 +203,7 @@ structure Signature where
   name : String
   params : List String
   required : Nat
-  deriving Repr, Inhabited
+  deriving Repr, Inhabited, DecidableEq
 
 def arities (sig : Signature) : List Nat :=
   (List.range (sig.params.length + 1)).filter (fun n => sig.required ≤ n)
